@@ -388,6 +388,44 @@ pub fn run(ctx: &mut Ctx, dom: &str, a: &[Arg]) {
                 dump_getters(ctx, &g, &h);
             }
         }
+        "hdrhuge" => {
+            // a header whose 16 bytes declare a length up to 4 GiB, backed by that many (untouched, zero) bytes
+            let h16 = a[0].b();
+            let length = u32::from_le_bytes([h16[8], h16[9], h16[10], h16[11]]) as usize;
+            match Guarded::sparse(length.max(16), h16, &[]) {
+                None => ctx.ln("load", "SKIP"),
+                Some(g) => {
+                    let r = guard(|| unsafe { Multiboot2Header::load(g.ptr.cast::<Multiboot2BasicHeader>()) });
+                    ctx.ln(
+                        "load",
+                        match r {
+                            Err(()) => "PANIC".to_string(),
+                            Ok(Err(e)) => load_err(e),
+                            Ok(Ok(h)) => format!("VAL length={}", h.length()),
+                        },
+                    );
+                }
+            }
+        }
+        "findhuge" => {
+            // a buffer of L bytes (4 GiB and more) that starts with the given prefix, zero pages behind it
+            let (l, prefix) = (a[0].n() as usize, a[1].b());
+            match Guarded::sparse(l, prefix, &[]) {
+                None => ctx.ln("find_header", "SKIP"),
+                Some(g) => {
+                    let r = guard(|| Multiboot2Header::find_header(g.slice()));
+                    ctx.ln(
+                        "find_header",
+                        match r {
+                            Err(()) => "PANIC".to_string(),
+                            Ok(Err(e)) => load_err(e),
+                            Ok(Ok(None)) => "VAL none".to_string(),
+                            Ok(Ok(Some((s, idx)))) => format!("VAL some @{}+{} idx={}", g.off(s.as_ptr()), s.len(), idx),
+                        },
+                    );
+                }
+            }
+        }
         "find" => {
             let g = Guarded::new(a[1].b(), a[0].u(), ctx.place_end);
             let r = guard(|| Multiboot2Header::find_header(g.slice()));
